@@ -55,6 +55,43 @@ class SymWalker:
         self.bind_loop = bind_loop
         self.non_none = set(non_none)
         self.max_depth = max_depth
+        self.detail: dict = {}
+
+    def _table_entry(self, f):
+        """The entry selected from a module-level dict literal by a key whose value the scenario fixes
+        (self.consts: {source text of the key expression: value}); None if not of that form."""
+        key = tab = None
+        if isinstance(f, ast.Call) and isinstance(f.func, ast.Attribute) and f.func.attr == "get" and isinstance(f.func.value, ast.Name) and f.args:
+            tab, key = f.func.value.id, f.args[0]
+        elif isinstance(f, ast.Subscript) and isinstance(f.value, ast.Name):
+            tab, key = f.value.id, f.slice
+        if tab is None:
+            return None
+        consts = getattr(self, "consts", {})
+        kt = src(key)
+        if isinstance(key, ast.Constant):
+            kv = key.value
+        elif kt in consts:
+            kv = consts[kt]
+        else:
+            return None
+        for st in self.module.tree.body:
+            tgt = st.targets[0] if isinstance(st, ast.Assign) and len(st.targets) == 1 else st.target if isinstance(st, ast.AnnAssign) else None
+            if isinstance(tgt, ast.Name) and tgt.id == tab and isinstance(getattr(st, "value", None), ast.Dict):
+                for k, v in zip(st.value.keys, st.value.values):
+                    if isinstance(k, ast.Constant) and k.value == kv:
+                        return v
+                return ast.Constant(value=None) if isinstance(f, ast.Call) else None
+        return None
+
+    def never_none(self, e) -> bool:
+        """Domain knowledge: expressions that cannot be None (elements of a variable / expression list, freshly
+        constructed nodes)."""
+        if isinstance(e, ast.Subscript) and any(src(e.value).endswith(sfx) for sfx in ("._variables", "._expressions")):
+            return True
+        if isinstance(e, ast.Call) and isinstance(e.func, ast.Name) and e.func.id[:1].isupper():
+            return True         # constructor call
+        return False
 
     # ---- values
     def value(self, e, env, depth=0):
@@ -64,13 +101,52 @@ class SymWalker:
             t = self.truth(e2.test, {}, depth)
             if t is not None:
                 return self.value(e2.body if t else e2.orelse, {}, depth)
-        if isinstance(e2, ast.Call) and isinstance(e2.func, ast.Name) and depth < self.max_depth:
-            h = self.prog.functions.get(f"{self.module.name}:{e2.func.id}")
-            if h is not None and not e2.keywords and len(e2.args) == len(h.node.args.args) and not h.node.decorator_list:
-                vals = self.returns(h, dict(zip([a.arg for a in h.node.args.args], e2.args)), depth + 1)
+        if getattr(self, "map_listcomps", False) and isinstance(e2, ast.ListComp) and len(e2.generators) == 1 and isinstance(e2.generators[0].target, ast.Name) and not e2.generators[0].ifs:
+            # [elt for E in it]  ->  MAP(it, elt with the element named ELEM)
+            g = e2.generators[0]
+            inner = {k: v for k, v in env.items() if k != g.target.id}
+            inner[g.target.id] = ast.Name(id="ELEM", ctx=ast.Load())
+            src_elt = e.elt if isinstance(e, ast.ListComp) else e2.elt
+            elt = self.value(src_elt, inner, depth)
+            it = self.value(e.generators[0].iter if isinstance(e, ast.ListComp) else g.iter, env, depth)
+            return ast.Call(func=ast.Name(id="MAP", ctx=ast.Load()), args=[it, elt], keywords=[])
+        sel0 = self._table_entry(e2)
+        if sel0 is not None and isinstance(sel0, (ast.Name, ast.Lambda, ast.Constant)):
+            return sel0         # TABLE.get(K) / TABLE[K] as a value: the selected entry
+        if isinstance(e2, ast.Call) and isinstance(e2.func, ast.Lambda) and len(e2.func.args.args) == len(e2.args) and not e2.keywords:
+            return self.value(subst(e2.func.body, dict(zip([a.arg for a in e2.func.args.args], e2.args))), {}, depth + 1)
+        # TABLE.get(K)(args) / TABLE[K](args): a module-level dispatch table, K fixed by the scenario
+        if isinstance(e2, ast.Call) and depth < self.max_depth:
+            sel = self._table_entry(e2.func)
+            if sel is not None:
+                if isinstance(sel, ast.Lambda) and len(sel.args.args) == len(e2.args) and not e2.keywords:
+                    return self.value(subst(sel.body, dict(zip([a.arg for a in sel.args.args], e2.args))), {}, depth + 1)
+                if isinstance(sel, ast.Name):
+                    return self.value(ast.Call(func=sel, args=e2.args, keywords=e2.keywords), env, depth)
+        if isinstance(e2, ast.Call) and isinstance(e2.func, ast.Name) and depth < self.max_depth and ("def:" + e2.func.id) in env:
+            # a local function defined earlier in the walked body: walk it with the enclosing bindings
+            d = env["def:" + e2.func.id]
+            ps = [a.arg for a in d.args.args]
+            if not e2.keywords and len(e2.args) == len(ps):
+                class _F:
+                    node = d
+                outer = getattr(self, "_closure_env", None) or env
+                inner = {k: v for k, v in outer.items() if k not in ps}
+                inner.update(dict(zip(ps, e2.args)))
+                vals = self.returns(_F, inner, depth + 1)
                 texts = {src(v) for v in vals}
                 if len(texts) == 1 and vals:
                     return vals[0]
+        if isinstance(e2, ast.Call) and isinstance(e2.func, ast.Name) and depth < self.max_depth:
+            h = self.prog.functions.get(f"{self.module.name}:{e2.func.id}")
+            if h is not None and not h.node.decorator_list and not any(isinstance(a, ast.Starred) for a in e2.args) and all(k.arg for k in e2.keywords):
+                from .inline import bind_args
+                binding = bind_args(h.node, e2)
+                if set(binding) >= {a.arg for a in h.node.args.args + h.node.args.kwonlyargs}:
+                    vals = self.returns(h, binding, depth + 1)
+                    texts = {src(v) for v in vals}
+                    if len(texts) == 1 and vals:
+                        return vals[0]
         return e2
 
     def truth(self, t, env, depth=0):
@@ -93,9 +169,12 @@ class SymWalker:
             h = self.prog.functions.get(f"{self.module.name}:{t2.func.id}")
             if h is not None and not t2.keywords and len(t2.args) == len(h.node.args.args) and not h.node.decorator_list:
                 vals = self.returns(h, dict(zip([a.arg for a in h.node.args.args], t2.args)), depth + 1)
-                vs = {self.truth(v, {}, depth + 1) for v in vals}
-                if len(vs) == 1:
+                tv = [(v, self.truth(v, {}, depth + 1)) for v in vals]
+                vs = {t_ for _v, t_ in tv}
+                if len(vs) == 1 and None not in vs:
                     return next(iter(vs))
+                # remember which returned tests of the helper were not decidable (for the caller's diagnostics)
+                self.detail[src(t2)] = [src(v) for v, t_ in tv if t_ is None]
                 return None
         if isinstance(t2, ast.Compare) and len(t2.ops) == 1:
             l = self.value(t2.left, {}, depth)
@@ -110,6 +189,8 @@ class SymWalker:
                     if isinstance(other, ast.Name) and other.id in self.non_none:
                         return not pos
                     if isinstance(other, ast.Constant):
+                        return not pos
+                    if self.never_none(other):
                         return not pos
                     return None
                 if src(l) == src(r):
@@ -129,6 +210,9 @@ class SymWalker:
 
         def on_stmt(st, state):
             env = state["env"]
+            if isinstance(st, ast.FunctionDef):
+                env["def:" + st.name] = st
+                return
             if isinstance(st, (ast.Assign, ast.AnnAssign)) and getattr(st, "value", None) is not None:
                 tg = st.targets[0] if isinstance(st, ast.Assign) else st.target
                 if isinstance(tg, ast.Name):
@@ -153,7 +237,8 @@ class SymWalker:
 
         def on_branch(t, val, state):
             if val:
-                state["assumed"].append(src(subst(t, state["env"])))
+                text = src(subst(t, state["env"]))
+                state["assumed"].extend(walker.detail.get(text) or [text])
 
         ex = Explorer(atom_truth, on_stmt, on_branch=on_branch, expand_loop=expand, max_paths=512)
         paths = ex.explore(fi.node.body, {"env": dict(env0), "ret": None, "assumed": []})
@@ -167,3 +252,226 @@ class SymWalker:
                 out.append(NONE)
                 self.last_assumed.append(list(state["assumed"]))
         return out
+
+
+# ---------------------------------------------------------------------------------------------------------------
+# Row walker: what entry does a jacobian_row-like method produce for ONE representative variable V of `variables`,
+# given whether V is an element of each of the node's variable containers (and, if so, at which position POS_k)?
+# ---------------------------------------------------------------------------------------------------------------
+
+def family_of(e):
+    """Describe an element-indexed collection built from a sequence SEQ:
+        set(SEQ) / frozenset(SEQ) / list(SEQ) / SEQ itself                 -> (SEQ, None, None, None)  (membership only)
+        {k: val for i, k in enumerate(SEQ)} / {k: val for k in SEQ}         -> (SEQ, idx, elem-name, val)
+        {SEQ[i]: val for i in range(len(SEQ))}                              -> (SEQ, idx, 'SEQ[i]' text, val)
+        {k for k in SEQ}                                                     -> membership only
+    SEQ is returned as source text; None if ``e`` is not of these forms."""
+    if isinstance(e, ast.Call) and isinstance(e.func, ast.Name) and e.func.id in ("set", "frozenset", "list", "tuple") and len(e.args) == 1:
+        return src(e.args[0]), None, None, None
+    if isinstance(e, (ast.DictComp, ast.SetComp)) and len(e.generators) == 1 and not e.generators[0].ifs:
+        g = e.generators[0]
+        key = e.key if isinstance(e, ast.DictComp) else e.elt
+        val = e.value if isinstance(e, ast.DictComp) else None
+        it = g.iter
+        if isinstance(it, ast.Call) and dotted(it.func) == "enumerate" and it.args and isinstance(g.target, ast.Tuple) and len(g.target.elts) == 2:
+            i, k = [src(x) for x in g.target.elts]
+            if src(key) == k:
+                return src(it.args[0]), i, k, val
+            return None
+        if isinstance(it, ast.Call) and dotted(it.func) == "range" and len(it.args) == 1 and isinstance(it.args[0], ast.Call) and dotted(it.args[0].func) == "len" and isinstance(g.target, ast.Name):
+            seq = src(it.args[0].args[0])
+            if src(key) == f"{seq}[{g.target.id}]":
+                return seq, g.target.id, f"{seq}[{g.target.id}]", val
+            return None
+        if isinstance(g.target, ast.Name) and src(key) == g.target.id:
+            return src(it), None, g.target.id, val
+        return None
+    if isinstance(e, (ast.Attribute, ast.Name)):
+        return src(e), None, None, None
+    if isinstance(e, ast.Call) and isinstance(e.func, ast.Attribute) and e.func.attr == "get_variables" and not e.args:
+        return src(e), None, None, None
+    return None
+
+
+class RowWalker(SymWalker):
+    """member: {container source text: True/False}; a container is the text of the sequence a family is built from,
+    e.g. 'self.vector._variables', or of a whole-collection call such as 'self.matrix.get_variables()'."""
+
+    V = "V"
+
+    def __init__(self, prog, module, member, extra_facts=None, seq_param="variables"):
+        self.member = member
+        self.pos = {c: (f"POS_{i}" if len(member) > 1 else "POS") for i, c in enumerate(sorted(member))}
+        self.extra_facts = extra_facts or (lambda t: None)
+        self.seq_param = seq_param
+        super().__init__(prog, module, self._facts, self._bind, non_none=tuple(self.pos.values()) + (self.V,))
+        self.unknown_families: list = []
+
+    # -- scenario facts
+    def _fam(self, e):
+        f = family_of(e)
+        if f is None:
+            return None
+        seq = f[0]
+        if seq not in self.member:
+            self.unknown_families.append(seq)
+            return None
+        return f
+
+    def _facts(self, t):
+        r = self.extra_facts(t)
+        if r is not None:
+            return r
+        if isinstance(t, ast.Compare) and len(t.ops) == 1 and isinstance(t.ops[0], (ast.In, ast.NotIn)) and src(t.left) == self.V:
+            f = self._fam(t.comparators[0])
+            if f is not None:
+                m = self.member[f[0]]
+                return m if isinstance(t.ops[0], ast.In) else (not m)
+        return None
+
+    def _bind(self, st, env):
+        it = subst(st.iter, env)
+        if src(it) == self.seq_param and isinstance(st.target, ast.Name):
+            return {st.target.id: ast.Name(id=self.V, ctx=ast.Load())}
+        return None
+
+    # -- family lookups inside values
+    def value(self, e, env, depth=0):
+        e2 = subst(e, env)
+        # [elt for v in variables]  ->  ROW(elt with v = V)
+        if isinstance(e2, ast.ListComp) and len(e2.generators) == 1 and src(e2.generators[0].iter) == self.seq_param and isinstance(e2.generators[0].target, ast.Name) and not e2.generators[0].ifs:
+            tgt = e2.generators[0].target.id
+            # the comprehension body was not substituted (own scope): do it now, with the loop variable bound
+            inner_env = {k: v for k, v in env.items() if k != tgt}
+            inner_env[tgt] = ast.Name(id=self.V, ctx=ast.Load())
+            entry = self.value(e.elt if isinstance(e, ast.ListComp) else e2.elt, inner_env, depth)
+            return ast.Call(func=ast.Name(id="ROW", ctx=ast.Load()), args=[entry], keywords=[])
+        e2 = self._lookups(e2, depth)
+        saved = getattr(self, "_closure_env", None)
+        self._closure_env = env          # bindings a local function called from here closes over
+        try:
+            return super().value(e2, {k: v for k, v in env.items() if k.startswith("def:")}, depth)
+        finally:
+            self._closure_env = saved
+
+    def _lookups(self, e, depth):
+        walker = self
+
+        class T(ast.NodeTransformer):
+            def visit_Subscript(self, node):
+                self.generic_visit(node)
+                if src(node.slice) == walker.V:
+                    f = walker._fam(node.value)
+                    if f is not None and f[3] is not None and walker.member[f[0]]:
+                        return walker._at(f)
+                return node
+
+            def visit_Call(self, node):
+                self.generic_visit(node)
+                if isinstance(node.func, ast.Attribute) and node.func.attr == "get" and node.args and src(node.args[0]) == walker.V:
+                    f = walker._fam(node.func.value)
+                    if f is not None and f[3] is not None:
+                        if walker.member[f[0]]:
+                            return walker._at(f)
+                        return node.args[1] if len(node.args) > 1 else ast.Constant(value=None)
+                return node
+
+            def visit_IfExp(self, node):
+                t = walker.truth(node.test, {}, depth)
+                if t is not None:
+                    return self.visit(node.body if t else node.orelse)
+                self.generic_visit(node)
+                return node
+
+            def visit_Lambda(self, node):
+                return node
+
+        return T().visit(clone(e))
+
+    def _at(self, f):
+        seq, idx, elem, val = f
+        env = {}
+        P = ast.Name(id=self.pos[seq], ctx=ast.Load())
+        if idx:
+            env[idx] = P
+        out = subst(val, env)
+        if elem and not elem.endswith("]"):
+            out = subst(out, {elem: ast.Name(id=self.V, ctx=ast.Load())})
+        return out
+
+    # -- entries
+    def entries(self, fi):
+        """Entries produced for V: from `R.append(E)` inside the loop over `variables`, or from a returned
+        [E for v in variables].  -> (list of entry source texts per path, list of plain returns)"""
+        walker = self
+        depth = 0
+
+        def atom_truth(t, state):
+            return walker.truth(t, state["env"], depth)
+
+        def on_stmt(st, state):
+            env = state["env"]
+            if isinstance(st, ast.FunctionDef):
+                env["def:" + st.name] = st
+                return
+            if isinstance(st, ast.For):
+                it = subst(st.iter, env)
+                b = walker._bind(st, env)
+                if b:
+                    env.update(b)
+                    state["in_row"] = True
+                    return
+                # family-building loop:  for i, k in enumerate(SEQ): D[k] = val
+                if len(st.body) == 1 and isinstance(st.body[0], ast.Assign) and isinstance(st.body[0].targets[0], ast.Subscript) and isinstance(st.body[0].targets[0].value, ast.Name):
+                    a = st.body[0]
+                    d = a.targets[0].value.id
+                    comp = ast.DictComp(key=a.targets[0].slice, value=a.value, generators=[ast.comprehension(target=st.target, iter=it, ifs=[], is_async=0)])
+                    env[d] = subst(comp, {k: v for k, v in env.items() if k not in {n.id for n in ast.walk(st.target) if isinstance(n, ast.Name)}})
+                return
+            if isinstance(st, (ast.Assign, ast.AnnAssign)) and getattr(st, "value", None) is not None:
+                tg = st.targets[0] if isinstance(st, ast.Assign) else st.target
+                if isinstance(tg, ast.Name):
+                    v = st.value
+                    if isinstance(v, (ast.DictComp, ast.SetComp)):
+                        # keep the comprehension, but substitute the outer names inside it
+                        bound = {n.id for g in v.generators for n in ast.walk(g.target) if isinstance(n, ast.Name)}
+                        inner = {k: x for k, x in env.items() if k not in bound}
+                        env[tg.id] = _SubAll(inner).visit(clone(v))
+                    else:
+                        env[tg.id] = walker.value(v, env, depth)
+                return
+            if isinstance(st, ast.Expr) and isinstance(st.value, ast.Call) and isinstance(st.value.func, ast.Attribute) and st.value.func.attr == "append" and st.value.args and state.get("in_row"):
+                state["entries"].append(walker.value(st.value.args[0], env, depth))
+                return
+            if isinstance(st, ast.Return):
+                state["ret"] = walker.value(st.value, env, depth) if st.value is not None else NONE
+
+        def expand(st, state):
+            return isinstance(st, ast.For) and walker._bind(st, state["env"]) is not None
+
+        ex = Explorer(atom_truth, on_stmt, expand_loop=expand, max_paths=512)
+        paths = ex.explore(fi.node.body, {"env": {}, "ret": None, "entries": [], "in_row": False})
+        rows, plain = [], []
+        for state, term in paths:
+            if not (isinstance(term, tuple) and term[0] == "return"):
+                continue
+            r = state["ret"]
+            if isinstance(r, ast.Call) and isinstance(r.func, ast.Name) and r.func.id == "ROW":
+                rows.append([src(r.args[0])])
+            elif state["entries"]:
+                rows.append([src(x) for x in state["entries"]])
+            else:
+                plain.append(src(r) if r is not None else "None")
+        return rows, plain
+
+
+class _SubAll(ast.NodeTransformer):
+    """Substitution that also enters comprehensions (used with the comprehension's own targets removed from env)."""
+
+    def __init__(self, env):
+        self.env = env
+
+    def visit_Name(self, node):
+        if isinstance(node.ctx, ast.Load) and node.id in self.env:
+            return clone(self.env[node.id])
+        return node
